@@ -14,7 +14,7 @@ BUILDS = {
 }
 
 HOOK_COMMITS = ["9bb871a", "5fa190b"]
-FIX_COMMITS = ["1a9feb3", "a54e157", "e8eadf0", "4275899"]
+FIX_COMMITS = ["1a9feb3", "a54e157", "e8eadf0", "4275899", "412168a"]
 
 # properties not claimed, with the reason (filled while the checks are being built)
 NOT_APPLICABLE = {}
@@ -201,6 +201,25 @@ PROPS = {
         "runs": [
             {"engine": "vt", "quick": 12000, "thorough": 800000, "what": "E-A: virtual-time grid of delays/timeouts/exits, call + multi_call + call_and_forward"},
             {"engine": "th", "quick": 8000, "thorough": 1500000, "what": "E-T: concurrent un-timed callers vs callee exit from another thread"},
+        ],
+    },
+    "C10": {
+        "level": "exploration",
+        "technique": "runtime monitoring: client-boundary history of named spawns / lookups / terminations / waits with global stamps, checked offline by interval reasoning (definite vs possible registration intervals) for at-most-one holder, lookup accuracy, no stale lookups and justified rejections; thread noise at registry entry/exit; remote proxies carrying the same names",
+        "level_text": ("Exploration: 2-8 client threads (E-T) or tasks (E-A) each running 4-24 operations over 1-3 shared names: named spawn "
+                       "(1/6 with a failing pre_start), where_is, where_is_pid, terminate own actor by stop/kill/drain/panic then wait()/"
+                       "join, and spawning + stopping a remote proxy that carries one of the names. Offline oracle per name / pid: two "
+                       "successful spawns never definitely registered at the same instant; a lookup wholly inside a definite holding "
+                       "interval returns the holder; no lookup returns an actor whose wait() had returned; every ActorAlreadyRegistered "
+                       "is justified by an overlapping possible holder. Held on the histories observed."),
+        "level_note": ("Interval reasoning is sound but incomplete: an overlap that the stamps cannot prove is not reported. pid lookups only in "
+                       "cluster builds."),
+        "rule": ("non-trivial = >= 2 successful holders and some contention (a rejected spawn or an empty lookup); distinct = hash(#holders, "
+                 "#rejections, #lookups, #lookups inside a definite interval, #proxies)."),
+        "assumptions": ["stamps come from one SeqCst counter taken before the call and after the result"],
+        "runs": [
+            {"engine": "th", "quick": 4800, "thorough": 600000, "what": "E-T: client threads on a 4-worker runtime with noise at REGISTRY_REGISTER/UNREGISTER, STATUS_AFTER_PUBLISH"},
+            {"engine": "vt", "quick": 8000, "thorough": 600000, "what": "E-A: client tasks under the poll interposer (exact replay)"},
         ],
     },
 }
